@@ -35,8 +35,19 @@ def stepWrite {S : Type} (op : HOp S) (s : HState S) : HState S :=
 def stepQuery {S : Type} (s : HState S) : HState S :=
   if s.transcribed then s else { s with transcribed := true, cache := s.spec }
 
+/-- a call that writes nothing but untranscribes (`save`, which calls `_untranscribe` before pickling) -/
+def stepClear {S : Type} (s : HState S) : HState S := { s with transcribed := false }
+
 def hstep {S : Type} (s : HState S) (op : HOp S) : HState S :=
-  if op.info.writes.isEmpty then (if op.info.query then stepQuery s else s) else stepWrite op s
+  if op.info.writes.isEmpty then
+    (if op.info.query then stepQuery s else if op.info.clears then stepClear s else s)
+  else stepWrite op s
+
+/-- `Ocp.save`: what is pickled is the object after `_untranscribe()`: the specification, no live NLP -/
+def saved {S : Type} (s : HState S) : S := (stepClear s).spec
+
+/-- `Ocp.load`: a fresh, untranscribed object holding the pickled specification -/
+def loaded {S : Type} (spec : S) : HState S := { spec := spec, transcribed := false, cache := spec }
 
 def hrun {S : Type} (ops : List (HOp S)) (s : HState S) : HState S := ops.foldl hstep s
 
